@@ -604,10 +604,22 @@ func verifC12Run(t *testing.T, vc *verifCtx, dir string, i int,
 
 			default:
 				if h.PreKnown {
+					// "... unless its preimage is already
+					// known": the forward was (or will be)
+					// settled upstream with that preimage.
+					vc.Count("oracle_known_not_failed_evals", 1)
 					if fails[h.Idx] != 0 {
-						vc.Diag("absent_known_failed",
-							fmt.Sprintf("case %d %s", i,
-								h.name()))
+						verifCCViolation(vc, "no_failback_when_preimage_known",
+							fbKey(h, "absent"),
+							fmt.Sprintf("offered HTLC %s "+
+								"exists only on a "+
+								"non-confirmed commitment "+
+								"(confirmed: %s) and its "+
+								"preimage is known, yet "+
+								"it was failed back %d "+
+								"times", h.name(), k,
+								fails[h.Idx]),
+							witness(obs))
 					}
 
 					continue
@@ -807,7 +819,7 @@ func verifC12EvalCells(vc *verifCtx, arb *ChannelArbitrator, w *verifCCWorld,
 				bad = "offered-absent"
 			}
 		default:
-			if resolverActs[k] != 0 {
+			if resolverActs[k] != 0 || failActs[k] != 0 {
 				bad = "offered-absent-known"
 			}
 		}
